@@ -226,11 +226,13 @@ def generate(rng, tier, cls):
         # exactly the same length, statistics regenerated each time
         key = rng.choice(sorted(fkinds))
 
-        for _ in range(rng.randint(2, 4)):
+        for _ in range(rng.randint(2, 6)):
             ops.append({'op': 'generate_stats', 'tree': tn,
                         'path': rng.choice([[], list(key)])})
             ops.append({'op': 'tweak', 'tree': tn, 'path': list(key),
-                        'attr': 'diff', 'how': 'swap_signs'})
+                        'attr': 'diff',
+                        'how': rng.choice(['swap_signs',
+                                           'swap_first_sign'])})
 
         ops.append({'op': 'generate_stats', 'tree': tn, 'path': []})
 
